@@ -435,6 +435,38 @@ func (b *BaseStore) holdsOnlyEntriesStoredUnderTheirAddress(ctx context.Context,
 
 // joinEntriesOneByOne merges into oplog the entries of l that are accepted on
 // their own, keeping at most amount entries when amount is positive.
+// cachedHeadsOutsideLog returns the heads cached under key that the log in
+// memory does not hold. A store replicates, and takes writes, from the moment
+// it is opened, and a load may be limited: the log in memory is then not the
+// whole database, and heads computed from it must not replace cached heads
+// that are the only way to the rest of it
+func (b *BaseStore) cachedHeadsOutsideLog(ctx context.Context, key string) []ipfslog.Entry {
+	raw, err := b.Cache().Get(ctx, datastore.NewKey(key))
+	if err != nil || len(raw) == 0 {
+		return nil
+	}
+
+	var cached []*entry.Entry
+	if err := json.Unmarshal(raw, &cached); err != nil {
+		return nil
+	}
+
+	oplog := b.OpLog()
+
+	var kept []ipfslog.Entry
+	for _, h := range cached {
+		if h == nil || !h.GetHash().Defined() {
+			continue
+		}
+
+		if _, ok := oplog.Get(h.GetHash()); !ok {
+			kept = append(kept, h)
+		}
+	}
+
+	return kept
+}
+
 // joinUpTo joins a log and then keeps the `amount` most recent entries
 // (everything when amount is not positive). Join cuts the list of the entries
 // it reaches from its heads and panics when asked to keep more than that list
@@ -1035,7 +1067,7 @@ func (b *BaseStore) AddOperation(ctx context.Context, op operation.Operation, on
 	verifhook.At("write.appended", b, e)
 	b.recalculateReplicationStatus(e.GetClock().GetTime())
 
-	marshaledEntry, err := json.Marshal([]ipfslog.Entry{e})
+	marshaledEntry, err := json.Marshal(append([]ipfslog.Entry{e}, b.cachedHeadsOutsideLog(ctx, "_localHeads")...))
 	if err != nil {
 		b.muWrite.Unlock()
 		return nil, fmt.Errorf("unable to marshal entry: %w", err)
@@ -1190,7 +1222,7 @@ func (b *BaseStore) replicationLoadComplete(ctx context.Context, logs []ipfslog.
 	// only store heads that has been verified and merges
 	heads := oplog.Heads()
 
-	headsBytes, err := json.Marshal(heads.Slice())
+	headsBytes, err := json.Marshal(append(heads.Slice(), b.cachedHeadsOutsideLog(ctx, "_remoteHeads")...))
 	if err != nil {
 		b.Logger().Error("unable to serialize heads cache", zap.Error(err))
 		return
